@@ -181,9 +181,11 @@ let verdict case impl =
      | "notrun" :: r -> "ok notrun " ^ String.concat "_" r
      | ("abort" | "panic") :: _ -> "viol crash=" ^ String.concat "_" status ^ " len=" ^ string_of_int len
      | "timeout" :: _ ->
-       (* confirmed by a solo re-run with three times the limit; every generated input is far below
-          the size for which seconds of decoding could be legitimate *)
-       if len <= 1 lsl 20 then "viol hang len=" ^ string_of_int len else "ok notrun timeout-on-large-input"
+       (* confirmed alone in a fresh child: that child burnt the per-input limit (10 s quick / 20 s thorough)
+          of CPU time on this input; every generated input is far below the size for which seconds of
+          decoding could be legitimate (largest 200 KB).  Above 1 MiB (hand-made replays only) it is not
+          called a violation, but it is not agreement either *)
+       if len <= 1 lsl 20 then "viol hang len=" ^ string_of_int len else "diff timeout-on-large-input len=" ^ string_of_int len
      | _ ->
        let pair = kind.[0] = 'P' in
        let compressed = (not pair) && compression && len > 1 && (int_of_n (List.nth stream 1)) land 1 = 1 in
